@@ -177,7 +177,7 @@ pub fn run_mode(ctx: &Ctx, mode: Mode) -> Report {
     let mut rep = Report::new(ctx);
     let thorough = ctx.tier.thorough();
     rep.rule = format!(
-        "E3: the COMPLETE reply tree over a 42-symbol alphabet (13 state reports x own/foreign address, 6 acknowledgements x own/foreign, no reply, goodbye, unknown frame, bus error): for configure, configure_if_needed, \
+        "E3: the COMPLETE reply tree over a 47-symbol alphabet (13 state reports x own/foreign address, 6 acknowledgements x own/foreign, no reply, goodbye, unknown frame, and 6 bus failures: a custom error type, io::Error Other/TimedOut/Interrupted, FrameError::Io wrapping TimedOut/UnexpectedEof): for configure, configure_if_needed, \
          send_pages([], [p], [p,q]), show_loaded_page, load_next_page, shut_down every reply is offered at every step until the real operation returns (polling loops cut at the horizon; cut prefixes are still checked). \
          {} Non-trivial = leaves in which the controller sent at least two messages; distinct by (operation, sign type, address, script)",
         if mode == Mode::C10 { "Every leaf is compared with the reference controller automaton: exact message list and outcome class." } else { "Every leaf is checked against invariants I1-I5 (no reference conversation)." }
